@@ -203,6 +203,11 @@ impl Monitor {
         tol: f64,
         detail: F,
     ) -> bool {
+        // replay mode: the whole workload is re-executed (same seed, same code path) but
+        // only the oracle evaluations of the requested case are judged
+        if !self.want(case) {
+            return true;
+        }
         let e = self.clauses.entry(clause.to_string()).or_default();
         e.checked += 1;
         e.tol = tol;
@@ -508,9 +513,7 @@ pub fn par_cases<T: Sync, F: Fn(&mut Monitor, u64, &T) + Sync>(m: &mut Monitor, 
         .fold(
             || parent.fork(),
             |mut acc, (i, c)| {
-                if acc.want(i as u64) {
-                    f(&mut acc, i as u64, c);
-                }
+                f(&mut acc, i as u64, c);
                 acc
             },
         )
